@@ -119,7 +119,7 @@ theorem dropWhile_head (ws : Char → Bool) (l : List Char) (h : ∀ c, l.head? 
     l.dropWhile ws = l := by
   cases l with
   | nil => rfl
-  | cons c t => simp [List.dropWhile_cons, h c rfl]
+  | cons c t => simp [h c rfl]
 
 theorem strip_id (ws : Char → Bool) (l : List Char) (h1 : ∀ c, l.head? = some c → ws c = false)
     (h2 : ∀ c, l.getLast? = some c → ws c = false) : strip ws l = l := by
